@@ -23,7 +23,7 @@ RULE = ("each case compiles one generated model for one configuration (backend i
         "distinct = distinct (spec, configuration) hash")
 DECIDING = ['derivatives_compared', 'torch_cases', 'jax_cases', 'fortran_cases', 'default_cases', 'float32_cases', 'rows_compared',
             'adaptive_rows_compared', 'interp_probe_points', 'readonly_param_probes', 'jax_checkify_probes', 'fortran_builds_checked',
-            'runs_with_coarser_sampling', 'literal_magnitude_models']
+            'runs_with_coarser_sampling', 'literal_magnitude_models', 'oscillator_runs']
 ASSUMPTIONS = ['float32 builds are compared at rtol 5e-4 on well-conditioned probe points only',
                'feature set per backend is what the backend accepts (Fortran: scalar models; JAX: no ring buffers); refusals are C20\'s business']
 CASE_TIMEOUT = 420
@@ -51,6 +51,10 @@ def plan(tier, seed):
     for b, kk in (('fortran', 20), ('default', 3), ('torch', 3), ('jax', 3)):
         cases += [{'family': 'literals', 'cseed': rnd.randrange(1 << 30), 'backend': b, 'mode': 'vf', 'prec': 'float64',
                    'force_literals': True} for _ in range(kk if tier == 'quick' else kk * 12)]
+    # adaptive runs of relaxation oscillators over several time units on every backend
+    for b in n:
+        cases += [{'family': 'oscillator', 'cseed': rnd.randrange(1 << 30), 'backend': b, 'mode': 'run_adaptive', 'prec': 'float64',
+                   'oscillator': True} for _ in range(5 if tier == 'quick' else 60)]
     opened = open_risks(PID)
     k = 6 if tier == 'quick' else 40
     for feat in FOCUS:
@@ -76,6 +80,24 @@ def warmup(ctx):
 def backend_class(name):
     from vp.props.c20 import backend_class as bc
     return bc(name)
+
+
+def oscillator_spec(rnd):
+    """two coupled van der Pol units (x' = z, z' = mu*(1 - x*x)*z - x + u) with different mu and initial values"""
+    from vp import expr as E
+    ops, nts, nodes = {}, {}, {}
+    for i in range(2):
+        mu = round(rnd.uniform(2.0, 5.0), 3)
+        ex = E.add(E.sub(E.mul(E.mul(E.var('mu'), E.sub(E.num(1.0), E.mul(E.var('x'), E.var('x')))), E.var('z')), E.var('x')),
+                   E.mul(E.num(0.5), E.var('u')))
+        ops[f'vdp{i}'] = {'eqs': [['de', 'x', E.tolist(E.var('z'))], ['de', 'z', E.tolist(ex)]],
+                         'vars': {'x': ['out', round(rnd.uniform(0.5, 2.0), 3)], 'z': ['var', round(rnd.uniform(-1.0, 1.0), 3)],
+                                  'mu': ['const', mu], 'u': ['in', 0.0]}}
+        nts[f'nt{i}'] = {'ops': [f'vdp{i}'], 'over': {}}
+        nodes[f'n{i}'] = f'nt{i}'
+    edges = [['n0/vdp0/x', 'n1/vdp1/u', None, {'weight': round(rnd.uniform(0.2, 0.9), 3)}],
+             ['n1/vdp1/x', 'n0/vdp0/u', None, {'weight': round(rnd.uniform(0.2, 0.9), 3)}]]
+    return {'ops': ops, 'node_types': nts, 'edge_types': {}, 'circ': {'name': 'c', 'nodes': nodes, 'subs': {}, 'edges': edges}}
 
 
 def scale_literals(spec, rnd, max_hits=3):
@@ -236,13 +258,24 @@ def run_case(case, ctx):
             outputs = {f'o{i}': '/'.join(k) for i, k in enumerate(keys)}
             steps = 20
             T = steps * dt
+            dts_ = None
             skw = dict(kw)
+            if case.get('oscillator'):
+                # relaxation oscillators over several time units: the step-size controller rejects steps, every backend's
+                # own scipy / diffrax wrapper is exercised beyond the first few steps
+                spec = oscillator_spec(rnd)
+                ref = RefModel(spec)
+                vec = False
+                keys = list(ref.state_keys)
+                outputs = {f'o{i}': '/'.join(k) for i, k in enumerate(keys)}
+                T, dts_ = rnd.choice([4.0, 6.0, 8.0]), 0.05
+                mech['oscillator_runs'] = 1
             if solver == 'scipy':
-                skw.update(method='RK45', rtol=1e-9, atol=1e-11)
+                skw.update(method=rnd.choice(['RK45', 'RK45', 'RK23', 'DOP853']) if case.get('oscillator') else 'RK45', rtol=1e-9, atol=1e-11)
             else:
                 skw.update(rtol=1e-9, atol=1e-11)
             try:
-                df = observe.run_model(spec, T=T, dt=dt, solver=solver, outputs=outputs, backend=b, vectorize=vec, **skw)
+                df = observe.run_model(spec, T=T, dt=dt, dts=dts_, solver=solver, outputs=outputs, backend=b, vectorize=vec, **skw)
             except Exception as e:
                 import traceback
                 raise observe.Mismatch(f"loud: run(backend={b}, solver={solver}) raised {type(e).__name__}: {e} :: {traceback.format_exc()[-400:]}")
@@ -255,7 +288,7 @@ def run_case(case, ctx):
             times = np.asarray(df.index, dtype=float)
             sol = solve_ivp(f, (0.0, T), [float(ref.val[k]) for k in skeys], method='DOP853', rtol=1e-12, atol=1e-14, t_eval=times)
             exp = sol.y.T[:, [skeys.index(k) for k in keys]]
-            msg = observe.compare_traj(df.values, exp, rtol=5e-6)
+            msg = observe.compare_traj(df.values, exp, rtol=5e-6 if not case.get('oscillator') else 5e-5)
             if msg == 'discard':
                 res.update(status='discard', symptom='reference not finite', mech=mech)
                 return res
